@@ -1541,6 +1541,15 @@ class Interp:
                 ok, selfv = fr.lookup("cls")
             return SuperRef(selfv, fr.self_cls)
         if isinstance(n.func, ast.Name) and n.func.id == "cast" and len(n.args) == 2:
+            # typing.cast(T, x) is x - but T IS evaluated: a bare name that exists only for the type checker (imported under
+            # `if TYPE_CHECKING:`) is a NameError at run time (found by the native cross-check of Association.abort)
+            t = n.args[0]
+            if isinstance(t, ast.Name) and not fr.lookup(t.id)[0]:
+                import builtins as _b
+                mod = fr.module
+                bound = (t.id in mod.functions or t.id in mod.classes or t.id in mod.assigns or t.id in mod.imports or hasattr(_b, t.id))
+                if not bound:
+                    self.raise_("NameError", f"name '{t.id}' is not defined")
             return self.eval(n.args[1], fr)
         # logging is dropped (A-LOG) but argument sub-expressions of f-strings are still evaluated
         if isinstance(n.func, ast.Attribute) and isinstance(n.func.value, ast.Name) \
